@@ -1104,6 +1104,11 @@ def gen_run(seed, params):
     mm = case.model.copy()
     cap = params.get('leaf_cap', 300)
     w = dict(params['weights'])
+    big = (not small) and rng.random() < params.get('p_big', 1.0 / 800)
+    if big:
+        # a few thousand leaves: size-dependent state (bounded caches,
+        # recursion depth of cascades, quadratic bookkeeping)
+        cap = 4000
     r = rng.random()
     if r < params.get('p_short', 0.6):
         n_ops = rng.randint(1, 6)
@@ -1121,11 +1126,17 @@ def gen_run(seed, params):
     kinds = [k for k in w if w[k] > 0]
     ops = []
     tail = params.get('tail')  # e.g. end every run with a Doerfler/grading op
+    if big:
+        n_ops = rng.randint(8, 16)
     for step in range(n_ops):
         last = step == n_ops - 1
         kind = rng.choices(kinds, [w[k] for k in kinds])[0]
         if last and tail:
             kind = rng.choice(tail)
+        if big and step < 5 and len(mm.leaves) * 4 <= cap:
+            kind = 'uniform'
+        elif big and kind in ('uniform', 'uniform_space', 'grading'):
+            kind = 'bisect'  # keep it affordable after the blow-up
         leaves = mm.canonical()
         if kind == 'bisect':
             if focus and fpt is not None and rng.random() < 0.7:
